@@ -1,10 +1,11 @@
 #!/bin/bash
-# usage: seed_eval.sh Cxx [extra check args]  -- applies /tmp/seed-Cxx-out/patch.diff to /repo, runs the quick check, reverts.
+# usage: seed_eval.sh Cxx [extra check args]  -- applies /tmp/seed-Cxx-out/patch.diff (or $PATCHFILE, e.g. seeded/Cxx_2/patch.diff) to /repo, runs the quick check, reverts.
 set -u
 P=$1; shift
 cd /verif
 if ! git -C /repo diff --quiet; then echo "/repo not clean"; exit 2; fi
-git -C /repo apply /tmp/${SEEDPFX:-seed}-$P-out/patch.diff || { echo "patch does not apply"; exit 2; }
+O=/tmp/${SEEDPFX:-seed}-$P-out; mkdir -p $O
+git -C /repo apply ${PATCHFILE:-$O/patch.diff} || { echo "patch does not apply"; exit 2; }
 start=$(date +%s)
 ./check $P --tier quick "$@" > /tmp/${SEEDPFX:-seed}-$P-out/check_quick.log 2>&1
 rc=$?
